@@ -39,17 +39,26 @@ POSITIONISH = ["cent", "centerline", "xcenter", "center_", "le", "lef", "leftmos
 CHAINS = ["x", "xc", "xcg", "xg", "xx", "xxy", "x_", "_x", "X", "Xc", "xC", "XC", "y", "yc", "ycg", "z", "zz", "a", "ab", "abc", "b", "bc"]
 TEMPS = ["temp_unique", "temp_dim_target", "remapped", "dummy", "xdummy", "ydummy", "TRANSFORMED_DIMENSION", "face", "padding", "axis"]
 LONG = ["a2345678901b", "Zonal_Index_1", "__private__x", "q_" * 6]
-CATS = {"letter": LETTERS, "positionish": POSITIONISH, "chain": CHAINS, "temp": TEMPS, "long": LONG}
+# names that are keyword arguments of the xarray / numpy / dask calls the library makes, and identifiers beyond ASCII
+KEYWORDS = ["mode", "constant_values", "pad_width", "dim", "dims", "data", "name", "attrs", "coords", "variable", "kwargs", "keep_attrs",
+            "stat_length", "end_values", "reflect_type", "axis", "dtype", "out", "depth", "boundary", "chunks", "meta", "func", "indexers",
+            "missing_dims", "new_name_or_name_dict"]
+# (not "self" and not "drop": xarray's own methods - squeeze, isel - cannot handle dimensions of these names)
+UNICODE = ["σ", "λ", "θ1", "x_ρ", "ñ", "Δx", "éta", "ξ", "η_ρ"]
+CATS = {"letter": LETTERS, "positionish": POSITIONISH, "chain": CHAINS, "temp": TEMPS, "long": LONG, "keyword": KEYWORDS, "unicode": UNICODE}
 
 
-def hostile_naming(rng, roles, weights=None):
+XARRAY_SQUEEZE_CANNOT = {"indexers", "missing_dims"}  # xarray's own squeeze() fails on dimensions of these names (face padding squeezes)
+
+
+def hostile_naming(rng, roles, weights=None, avoid=()):
     """injective map role -> hostile identifier (never one of the five position words)."""
     used, out, cats = set(), {}, set()
     for r in roles:
         while True:
-            cat = rng.choice(["letter", "letter", "positionish", "positionish", "chain", "chain", "temp", "long"])
+            cat = rng.choice(["letter", "letter", "positionish", "positionish", "chain", "chain", "temp", "long", "keyword", "keyword", "unicode"])
             nm = rng.choice(CATS[cat])
-            if nm not in used and nm not in POSW:
+            if nm not in used and nm not in POSW and nm not in avoid:
                 used.add(nm)
                 out[r] = nm
                 cats.add(cat)
@@ -102,7 +111,7 @@ def gen_case(rng, i, tier):
             pos[f"A{k}"] = gen.random_positions(rng, 0.5, at_least=2)
     roles = list(pos) + [f"dim:{a}:{p}" for a, ps in pos.items() for p in ps] + ["E0", "E1", "V0", "D0", "D1", "TD", "TN", "F"]
     roles += [f"M{k}" for k in range(6)]
-    ren, cats = hostile_naming(rng, roles)
+    ren, cats = hostile_naming(rng, roles, avoid=XARRAY_SQUEEZE_CANNOT if kind == "faces" else ())
     if kind == "ufunc" and rng.random() < 0.4:
         # dummy names live in a namespace of their own: they may be spelled like the real axes, in any order
         axs = [ren[a] for a in pos]
